@@ -181,6 +181,10 @@ func Run(t *rt.Tape, s Session) *Out {
 	cfg := &env.Config{Rand: simrand.Stream("G-garble")}
 	if s.GarbleRand != nil {
 		cfg.Rand = s.GarbleRand(cfg.Rand)
+	} else if s.Par == nil && t.Choose(rt.SGen, 4) == 0 {
+		// the default configuration: no Rand set, GetRandom falls back to crypto/rand.Reader (which is
+		// the simulator's per-party stream)
+		cfg = &env.Config{}
 	}
 	var onStall func() bool
 	if s.AbortOnStall {
